@@ -65,6 +65,7 @@ pub fn choose_enc(ch: &mut Chooser) -> XEnc {
         empty_rows: ch.flag("enc.empty_row_elements"),
         reorder_members: ch.flag("enc.member_order"),
         rid_shuffle: ch.flag("enc.relationship_ids_shuffled"),
+        indent: ch.flag("enc.xml_indented"),
     }
 }
 
@@ -101,6 +102,7 @@ fn build(ch: &mut Chooser, anchor: (u32, u32), positions: &[(u32, u32)]) -> Case
 fn enc_tag(e: &XEnc) -> String {
     let mut v = vec![];
     if e.prefix { v.push("prefix"); }
+    if e.indent { v.push("indented"); }
     if e.row_r == RMode::Implicit { v.push("row-implicit"); }
     if e.cell_r == RMode::Implicit { v.push("cell-implicit"); }
     match e.dim { DimMode::Exact => {}, DimMode::Absent => v.push("dim-absent"), DimMode::TooSmall => v.push("dim-small"), DimMode::TooLarge => v.push("dim-large"), DimMode::StaleRows => v.push("dim-stale") }
